@@ -32,7 +32,7 @@ SIG_INIT = ("C19/declared-async/not-on-current-loop/source", "C19/declared-async
             "C19/declared-async/thread-started/ensure_io_loop-node", "C19/declared-async/sink-on-background-thread")
 SIG_JOIN = ("C19/split/loop/join/inherited", "C19/split/mode/join/inherited")
 
-LOOPC = {None: "lN", "CUR": "lC", "BG": "lB", "L1": "l1", "L2": "l2", "X": "lX"}
+LOOPC = {None: "lN", "CUR": "lC", "BG": "lB", "L1": "l1", "L2": "l2", "X": "lX", "DC": "lD"}
 ASYNC = {None: "aN", True: "aT", False: "aF"}
 
 
@@ -42,12 +42,12 @@ def enc_req(st, impl):
                                 "true" if r["ensure"] else "false")
 
 
-def enc_case(steps, obs, impl):
+def enc_case(steps, obs, impl, client=False):
     parts = []
     for st, ob in zip(steps, obs):
         snap = "; ".join("(%s,%s)" % (LOOPC[l], ASYNC.get(a, "aN") if a in (None, True, False) else "aN") for l, a in ob["snap"])
         parts.append("(%s, %s [%s])" % (enc_req(st, impl), "ORaise" if ob["raised"] else "OOk", snap))
-    return "[" + "; ".join(parts) + "]"
+    return "(%s, [%s])" % ("true" if client else "false", "; ".join(parts))
 
 
 def write_files(d, encoded, per=300):
@@ -56,11 +56,18 @@ def write_files(d, encoded, per=300):
         p = os.path.join(d, "cases_%03d.v" % (k // per))
         with open(p, "w") as f:
             f.write("From Coq Require Import List.\nFrom SZ Require Import Ext.LoopPercolate Ext.LoopPercolateCases.\n"
-                    "Import ListNotations.\nDefinition cases : list case := [\n")
+                    "Import ListNotations.\n"
+                    "(* a session run while a dask default client exists is judged against the same variant with has_client *)\n"
+                    "Definition lD := Some ClientLoop.\n"
+                    "Definition wc (c : cfg) : cfg := mkCfg (fix_init c) (fix_join c) true.\n"
+                    "Fixpoint mm (v : cfg) (k : nat) (l : list (bool * case)) : list nat :=\n"
+                    "  match l with [] => [] | (cl, cs) :: r =>\n"
+                    "    if agree (if cl then wc v else v) [] cs then mm v (S k) r else k :: mm v (S k) r end.\n"
+                    "Definition cases : list (bool * case) := [\n")
             f.write(";\n".join(encoded[k:k + per]))
             f.write("].\n")
             for v in VARIANTS:
-                f.write("Eval vm_compute in (mismatches %s cases).\n" % v)
+                f.write("Eval vm_compute in (mm %s 0 cases).\n" % v)
         paths.append(p)
     return paths
 
@@ -152,7 +159,7 @@ def shrink(case, sig):
         res = run_sessions([c])[0]
         if res[3]:
             return False
-        f, _ = c19_oracle.judge(res[1], res[2])
+        f, _ = c19_oracle.judge(res[1], res[2], client=bool(c.get("client")))
         return any(s == sig for s, _, _ in f)
     changed = True
     while changed:
@@ -207,12 +214,12 @@ def run(prop, tier, seed, replay=None):
         hist_layer[c.get("layer", "?")] = hist_layer.get(c.get("layer", "?"), 0) + 1
         if len(ran) >= 2 or any(s["asynchronous"] is not None or s["loop"] is not None for s in ran):
             distinct.add(json.dumps(ran, sort_keys=True))
-        f, info = c19_oracle.judge(ran, obs)
+        f, info = c19_oracle.judge(ran, obs, client=bool(c.get("client")))
         for k_, v_ in info.items():
             info_tot[k_] = info_tot.get(k_, 0) + v_
         for sig, msg, k in f:
             if sig not in found or len(ran) < len(found[sig][1]["steps"]):
-                found[sig] = (msg, {"steps": ran}, k)
+                found[sig] = (msg, dict({"steps": ran}, **({"client": True} if c.get("client") else {})), k)
     probes = [] if replay else run_probes()
     for r in probes:
         for sig, msg in judge_probe(r):
@@ -228,7 +235,7 @@ def run(prop, tier, seed, replay=None):
             out.violation(sig, msg, {"case": small, "failing_request_index_in_original": k})
     # ---- correspondence
     d = common.scratch(prop)
-    encoded = [enc_case(ran, obs, impl) for _, ran, obs in good]
+    encoded = [enc_case(ran, obs, impl, client=bool(c_.get("client"))) for c_, ran, obs in good]
     paths = write_files(d, encoded)
     t1 = time.time()
     res = common.run_case_files(paths)
